@@ -508,6 +508,31 @@ func TestC03Retransmission(t *testing.T) {
 						inFlight++
 					}
 				}
+				// no exchange is given up on before its time: a registration for (session, identifier) that follows an earlier
+				// one (a retransmission re-arms it) comes at the earliest one second before the deadline registered before
+				// (deadlines are honoured to the second)
+				{
+					type key struct {
+						s  string
+						id int32
+						tp byte
+					}
+					last := map[key]AckInsert{}
+					w.mu.Lock()
+					ins := append([]AckInsert{}, w.Node(1).AckInserts...)
+					w.mu.Unlock()
+					for _, ai := range ins {
+						if ai.Err != "" {
+							continue
+						}
+						k := key{ai.Session, ai.ID, ai.Type}
+						if prev, ok := last[k]; ok && ai.At.Before(prev.Deadline.Add(-time.Second)) && ai.At.After(prev.At) {
+							viol("c03-expired-before-its-deadline", "the exchange of session %s, identifier %d registered at +%v with deadline +%v was registered again at +%v: it was given up on %.1f s early", ai.Session, ai.ID, prev.At.Sub(ins[0].At), prev.Deadline.Sub(ins[0].At), ai.At.Sub(ins[0].At), prev.Deadline.Sub(ai.At).Seconds())
+							return
+						}
+						last[k] = ai
+					}
+				}
 				// every identifier is either free or belongs to a delivery that is legitimately still in flight
 				{
 					total, freeIDs := int32(65535), int32(0)
